@@ -153,7 +153,7 @@ def run_check(pid, tier, replay=None):
         }
         C.write_evidence(pid, tier, "model_checking", coverage, time.time() - t0, len(violations),
                          ["changes start after Config returned", "fsnotify/inotify behave as recorded in DESIGN.md 4.4 (the model's "
-                          "environment); the verdict on the real code does not depend on it: it is View() == decode(final bytes) within 5 s"])
+                          "environment); the verdict on the real code does not depend on it: it is View() == decode(final bytes) within 20 s"])
         return C.finish(pid, violations[:20])
     finally:
         scratch.cleanup()
